@@ -109,6 +109,7 @@ type trackSpec struct {
 	lang    string
 	isDef   bool
 	aacRate int
+	reorder bool // H264 with B-frames: presentation order differs from decode (= writing) order
 }
 
 type writeCall struct {
@@ -173,6 +174,7 @@ type muxGen struct {
 	keyEvery       int // if >0 force regular GOP
 	videoOnly      bool
 	forceVideo     bool
+	reorder        bool // some H264 tracks carry B-frames
 	h26xOnly       bool // video is H264 or H265 (codecs whose parameter sets travel in-band as NAL units)
 	paramChangeDen int  // a parameter change at a key frame with probability 1/paramChangeDen (default 6)
 }
@@ -218,8 +220,9 @@ func genMuxCfg(r *Run, g *muxGen) *muxCfg {
 				kind = Pick(T, "h264", "h265")
 			}
 		}
-		p := videoParamVariant(kind, T.Intn(16))
-		ts := &trackSpec{kind: kind, video: true, clock: 90000, initial: p}
+		reorder := g.reorder && kind == "h264" && T.Chance(1, 3)
+		p := videoParamVariantR(kind, T.Intn(16), reorder)
+		ts := &trackSpec{kind: kind, video: true, clock: 90000, initial: p, reorder: reorder}
 		ts.t = newVideoTrack(kind, p)
 		// attributes that only mean something for audio renditions may be set on the video track as well
 		if T.Chance(1, 5) {
@@ -322,6 +325,11 @@ func genScript(r *Run, c *muxCfg, g *muxGen) []*writeCall {
 	case 3:
 		if g.negativeStart {
 			startSec = -10.0 // the statement's lower bound
+		}
+	}
+	for _, ts := range c.tracks {
+		if ts.reorder && startSec < 0 {
+			startSec = 0 // decode times of B-frame streams are the library's own; keep them clear of the fMP4 offset rule
 		}
 	}
 	ntpBase := time.Date(2020+T.Intn(10), time.Month(1+T.Intn(12)), 1+T.Intn(28), T.Intn(24), T.Intn(60), T.Intn(60),
@@ -478,6 +486,13 @@ func genVideoCalls(T *Tape, g *muxGen, c *muxCfg, ts *trackSpec, _ []*writeCall,
 			base = 90000 / fpsList[T.Intn(len(fpsList))]
 		}
 	}
+	if ts.reorder {
+		dmode = 0
+	}
+	// B-frame streams: pictures are written in decode order; anchors (I, P) are followed by the nB pictures that are
+	// shown before them
+	nB := Pick(T, 1, 2, 2, 3)
+	disp, maxDisp, idrDisp, anchorPrev, anchorDisp, bLeft, frameNum := 0, -1, 0, 0, 0, 0, 0
 	// key frame pattern
 	gop := Pick(T, 1, 2, 3, 5, 10, 15, 30, 60)
 	if g.keyEvery > 0 {
@@ -529,7 +544,7 @@ func genVideoCalls(T *Tape, g *muxGen, c *muxCfg, ts *trackSpec, _ []*writeCall,
 			}
 			if g.paramChanges && firstKeyDone && T.Chance(1, den) {
 				variant++
-				p = videoParamVariant(ts.kind, T.Intn(4)+4*variant)
+				p = videoParamVariantR(ts.kind, T.Intn(4)+4*variant, ts.reorder)
 				if !p.equal(cur) {
 					changed = true
 					inband = true
@@ -540,7 +555,7 @@ func genVideoCalls(T *Tape, g *muxGen, c *muxCfg, ts *trackSpec, _ []*writeCall,
 		} else if g.paramChanges && firstKeyDone && (ts.kind == "h264" || ts.kind == "h265") && T.Chance(1, 40) {
 			// parameter sets arriving in a non-random-access unit: pending until the next key frame
 			variant++
-			p = videoParamVariant(ts.kind, T.Intn(4)+4*variant)
+			p = videoParamVariantR(ts.kind, T.Intn(4)+4*variant, ts.reorder)
 			if !p.equal(cur) {
 				changed = true
 				inband = true
@@ -556,16 +571,45 @@ func genVideoCalls(T *Tape, g *muxGen, c *muxCfg, ts *trackSpec, _ []*writeCall,
 			size = bigSize(T, c)
 		}
 		u := &unit{track: ts.id, idx: len(ts.units), dts: dts, pts: dts, ra: key, params: p, carries: inband}
+		var sp slicePos
+		if ts.reorder {
+			switch {
+			case key:
+				disp = maxDisp + 1
+				idrDisp, anchorDisp, bLeft, frameNum = disp, disp, 0, 0
+			case !firstKeyDone:
+				disp = maxDisp + 1 // before the first key frame: dropped by the muxer anyway
+			case bLeft > 0:
+				disp = anchorPrev + (nB - bLeft + 1)
+				bLeft--
+				sp.b = true
+			default:
+				anchorPrev = anchorDisp
+				anchorDisp += nB + 1
+				disp = anchorDisp
+				bLeft = nB
+				frameNum++
+			}
+			if disp > maxDisp {
+				maxDisp = disp
+			}
+			sp.poc, sp.frameNum = 2*(disp-idrDisp), frameNum
+			u.pts = int64(t0*90000) + int64(disp)*base
+			u.dts = u.pts // provisional, see unit.dtsKnown
+			if !sp.b && !key && firstKeyDone {
+				u.dts = u.pts - int64(nB)*base
+			}
+		}
 		if inband && firstKeyDone && (ts.kind == "h264" || ts.kind == "h265") && T.Chance(1, 5) {
 			// the parameter sets travel in a Write call of their own (no slice in it) right before the picture
 			// (not before the very first key frame: the library's DTS extractor needs them inside that unit)
 			u.sep = paramNALUs(ts.kind, p)
-			u.data, u.payload = buildVideoUnit(ts.kind, ts.id, u.idx, key, p, false, size)
+			u.data, u.payload = buildVideoUnitAt(ts.kind, ts.id, u.idx, key, p, false, size, sp)
 		} else {
-			u.data, u.payload = buildVideoUnit(ts.kind, ts.id, u.idx, key, p, inband, size)
+			u.data, u.payload = buildVideoUnitAt(ts.kind, ts.id, u.idx, key, p, inband, size, sp)
 		}
 		ts.units = append(ts.units, u)
-		*out = append(*out, &writeCall{track: ts, pts: dts, units: []*unit{u}})
+		*out = append(*out, &writeCall{track: ts, pts: u.pts, units: []*unit{u}})
 		if changed || inband {
 			cur = p
 		}
